@@ -336,6 +336,27 @@ func effCond(ifi *ssa.If, env *phiEnv) (ssa.Value, bool, bool, bool) {
 	if c, ok := v.(*ssa.Const); ok && c.Value != nil && c.Value.Kind() == constant.Bool {
 		return v, neg, true, constant.BoolVal(c.Value) != neg
 	}
+	// a comparison of two constants (left behind by the normalisation: `err := nil; if err != nil`)
+	if b, ok := Strip(v).(*ssa.BinOp); ok && (b.Op == token.EQL || b.Op == token.NEQ) {
+		cx, okx := Strip(b.X).(*ssa.Const)
+		cy, oky := Strip(b.Y).(*ssa.Const)
+		if okx && oky {
+			var eq, known bool
+			switch {
+			case cx.Value == nil && cy.Value == nil:
+				eq, known = true, true
+			case cx.Value != nil && cy.Value != nil && cx.Value.Kind() == cy.Value.Kind() && cx.Value.Kind() != constant.Unknown:
+				eq, known = constant.Compare(cx.Value, token.EQL, cy.Value), true
+			}
+			if known {
+				res := eq
+				if b.Op == token.NEQ {
+					res = !eq
+				}
+				return v, neg, true, res != neg
+			}
+		}
+	}
 	return v, neg, false, false
 }
 
